@@ -483,6 +483,7 @@ class StreamEngine(Engine):
         res = RunResult()
         st = res.stats
         tr: list[str] | None = [] if trace else None
+        w3 = False
         mode = cfg.choice(3, lambda r: 0)  # 0 sampled; 1 / 2 = enumerated eof / drop (records built by extra_phase)
         if mode:
             wl = 0
@@ -506,6 +507,19 @@ class StreamEngine(Engine):
             ci = cfg.choice(len(corpus.w1))
             text = corpus.text(wl, ci)
             toks = corpus.tokens(wl, ci)
+            if wl == 0 and toks and cfg.flag(1, 6):
+                # W3: a generated token sequence (tokens of one generic-form chunk in
+                # seeded order, a prefix kept intact so that the parser gets going)
+                keep = cfg.choice(min(len(toks), 40) + 1)
+                n_tok = 1 + cfg.choice(60)
+                parts = [text[a:b] for a, b, _ in toks[:keep]]
+                for _ in range(n_tok):
+                    a, b, _k = toks[cfg.choice(len(toks))]
+                    parts.append(text[a:b])
+                text = " ".join(parts)
+                toks = []
+                w3 = True
+                st["workload.W3_token_sequence"] += 1
             enabled = [1 if cfg.flag(3, 4) else 0 for _ in FAULT_KINDS]
             if not any(enabled):
                 enabled[cfg.choice(len(enabled))] = 1
@@ -517,7 +531,7 @@ class StreamEngine(Engine):
                 damaged, d = apply_fault(fs, damaged, dtoks, corpus, wl, st, enabled)
                 descs.append(d)
         if tr is not None:
-            tr.append(f"file {corpus.names[ci]} workload {'W1-core-generic' if wl == 0 else 'W2-full-custom'} len {len(text)} faults {descs} -> len {len(damaged)} crc {zlib.crc32(damaged.encode('utf-8', 'replace')):08x}")
+            tr.append(f"file {corpus.names[ci]} workload {('W3-token-sequence' if w3 else 'W1-core-generic') if wl == 0 else 'W2-full-custom'} len {len(text)} faults {descs} -> len {len(damaged)} crc {zlib.crc32(damaged.encode('utf-8', 'replace')):08x}")
         out = judge.parse(damaged, wl)
         oc = out["outcome"]
         if oc == "timeout":
@@ -557,7 +571,7 @@ class StreamEngine(Engine):
                 tr.append(f"VIOLATION {viol.oracle}: {viol.detail}")
         ev_per_char = out["events"] / (len(damaged) + 64)
         st["max.events_per_char_x100." + ("W1" if wl == 0 else "W2")] = int(ev_per_char * 100)
-        res.nontrivial = damaged != text
+        res.nontrivial = damaged != text or w3
         res.fingerprint = zlib.crc32(damaged.encode("utf-8", "replace")) ^ (len(damaged) << 32) ^ (wl << 60)
         res.trace = tr
         return res
